@@ -1326,9 +1326,9 @@ MA('C09', 'SeparableSum gradient reverses the components', DFUN,
    'gradients = [func.gradient for func in self.functionals]',
    'gradients = [func.gradient for func in self.functionals[::-1]]',
    'SeparableSum[L2Norm')
-MA('C09', 'linear functional derivative via gradient.T (regression)',
+MA('C09', 'derivative on a field via gradient.T (regression)',
    'odl/solvers/functional/functional.py', 'Functional.derivative',
-   'if self.is_linear:...', 'pass', 'field')
+   'if self.domain == self.range:...', 'pass', 'field')
 DOPS_ = 'odl/operator/default_ops.py'
 MA('C06', 'PowerOperator derivative keeps the exponent', DOPS_,
    'PowerOperator.derivative',
@@ -2003,3 +2003,13 @@ MA('C18', 'inverse post-processing uses the phase of the forward sign',
    'return dft_preprocess_data(x, shift=self.shifts, axes=self.axes, sign=self.sign, out=out)',
    "return dft_preprocess_data(x, shift=self.shifts, axes=self.axes, sign='-' if self.sign == '+' else '+', out=out)",
    'R4d')
+MA('C09', 'quotient rule skips its second term for a divisor with Lipschitz constant 0',
+   'odl/solvers/functional/functional.py', 'FunctionalQuotient.gradient.FunctionalQuotientGradient._call',
+   'return 1 / divisorx * func.dividend.gradient(x) + -dividendx / divisorx ** 2 * func.divisor.gradient(x)',
+   'if func.divisor.grad_lipschitz == 0:\n    return (1 / divisorx) * func.dividend.gradient(x)\nreturn 1 / divisorx * func.dividend.gradient(x) + -dividendx / divisorx ** 2 * func.divisor.gradient(x)',
+   'FunctionalQuotient[Id * Id')
+MA('C09', 'L2 gradient vanishes below an absolute tolerance',
+   'odl/solvers/functional/default_functionals.py', 'LpNorm.gradient.L2Gradient._call',
+   'if norm_of_x == 0:...',
+   'if norm_of_x <= np.finfo(float).resolution * 10:\n    return self.domain.zero()\nelse:\n    return x / norm_of_x',
+   'L2Norm[')
